@@ -26,6 +26,7 @@ point, because a traversal only becomes an `open` when the target exists.
 from __future__ import annotations
 
 import atexit
+import contextlib
 import gzip
 import io
 import os
@@ -57,7 +58,8 @@ RULE = (
     "'....//' (a '../' left behind by a one-pass filter), prefix-confusion siblings (<dir>_evil), traversals that stay inside one "
     "allowed directory but leave the other (sibling of CMAP_PATH named like the bundled cmap directory, and the converse), "
     "Windows separators, ~ and $VAR, non-UTF-8 bytes; enumerated over output types text/xml/html and output-directory "
-    "modes (absolute, relative, odd spelling, symlinked, not yet existing, none), CMAP_PATH set/unset/mirror; plus seeded random "
+    "modes (absolute, relative, odd spelling, symlinked, not yet existing, none), CMAP_PATH set/unset/mirror and with an empty "
+    "os.pathsep component; the same image-name strings as /F and /UF of Filespecs extracted by tools/dumppdf.py -E; plus seeded random "
     "strings built from the same fragments and random slot/image-kind/xref combinations; control documents carry no hostile "
     "string. distinct = distinct (slot, string template, output type, output mode, env mode, variant); non-trivial = the "
     "slot string is hostile (not a control)."
@@ -267,6 +269,19 @@ READ_SLOTS = ["encoding_name", "cmapname_stream", "cmapname_dict", "usecmap_cid"
 NAME_SLOTS = ["basefont", "image_dict_name", "inline_cs", "form_name"]
 WRITE_SLOTS = ["xobject_image", "form_inner_image"]
 ALL_SLOTS = READ_SLOTS + NAME_SLOTS + WRITE_SLOTS
+# dumppdf -E names a file "<6-digit object number>-<name>": the first component of <name> fuses with that prefix, so these
+# spellings leave DIR with fewer "../" than an image name needs (when joined unreduced)
+EMBED_STRINGS: List[Tuple[str, bytes]] = [
+    ("embed_dot_up2", b"./../../escaped"),
+    ("embed_dir_up2", b"a/../../escaped"),
+    ("embed_dir_up3", b"a/b/../../../escaped"),
+    ("embed_up3_existing", b"../../../000002-victim"),
+    ("embed_dir_up2_existing", b"x/../../000002-victim"),
+    ("embed_up_then_abs", b"../../..@ABS@/escaped"),
+    ("embed_backslash_up", b"a\\..\\..\\escaped"),
+]
+EMBED_SLOTS = ["embedded_f", "embedded_uf", "embedded_uf_utf16"]   # enumerated only: tools/dumppdf.py extractembedded (-E DIR)
+EMPTY_COMPONENT_ENVS = ["trail", "lead", "double"]                  # CMAP_PATH = "<dir>:", ":<dir>", "<dir>::/nonexistent"
 PAIR_SLOT = "image_pair"    # enumerated only: case["h"] and case["h2"] name two page-level images of the same kind
 
 IMAGE_KINDS = ["gray8", "rgb8", "bw1", "dct", "raw4", "cmyk8", "flate_gray8", "flate_cmyk", "jbig2"]
@@ -296,10 +311,18 @@ def minimums(tier: str) -> Dict[str, int]:
         "pair_family_runs": 100,
         "pair_family_two_files_created": 80,
         "sanitised_name_exists_runs": 30,
-        "seen:slots": len(ALL_SLOTS) + 2,
+        # CMAP_PATH values with an empty component (one odd directory name for the library as it stands; never the cwd)
+        "empty_component_family_runs": 45,
+        "empty_component_family_planted_file_reachable": 40,
+        # tools/dumppdf.py -E DIR on documents whose Filespecs carry hostile /F and /UF names
+        "embed_family_runs": 190,
+        "embed_family_runs_with_file_in_dir": 100,
+        "embed_family_names_that_leave_dir_if_joined_unreduced": 45,
+        "embed_input_reads_observed": 190,
+        "seen:slots": len(ALL_SLOTS) + 2 + len(EMBED_SLOTS),
         "seen:otypes": 3,
         "seen:outmodes": len(OUTMODES),
-        "seen:envmodes": 3,
+        "seen:envmodes": 6,
         "seen:image_kinds": len(IMAGE_KINDS),
         "seen:read_tags": len(READ_STRINGS) + len(READ_CONTROLS),
         "seen:write_tags": len(WRITE_STRINGS) + len(WRITE_CONTROLS),
@@ -379,6 +402,20 @@ def enum_cases() -> List[Dict[str, Any]]:
             for k, ot in enumerate(OTYPES):
                 add(slot, tag, dict(READ_STRINGS)[tag], otype=ot, outmode=["abs", "rel", "none"][k], env="unset")
             add(slot, tag, dict(READ_STRINGS)[tag], outmode="rel", env="set")
+    # CMAP_PATH with an empty component: still one (odd) directory name, and never the working directory
+    for slot in ["encoding_name", "cmapname_stream", "usecmap_cid", "usecmap_simple", "registry", "ordering"]:
+        for tag in CWD_TAGS:
+            for k, em in enumerate(EMPTY_COMPONENT_ENVS):
+                add(slot, tag, dict(READ_STRINGS)[tag], outmode=["abs", "rel", "none"][(k + len(cases)) % 3], env=em)
+        for em in EMPTY_COMPONENT_ENVS:
+            add(slot, "ctl_env_custom", b"VF-Custom-H", env=em)
+            add(slot, "rel_env", b"../decoys/decoy", env=em)
+    # embedded-file extraction of tools/dumppdf.py: every image-name string as /F, as /UF and as UTF-16BE /UF
+    for slot in EMBED_SLOTS:
+        for k, (tag, h) in enumerate(WRITE_STRINGS + WRITE_CONTROLS + EMBED_STRINGS):
+            add(slot, tag, h, otype="text", outmode=["abs", "rel", "odd", "link", "missing", "abs"][k % 6], env="set")
+        for tag, h in EMBED_STRINGS:
+            add(slot, tag, h, otype="text", outmode="abs", env="set")
     # names routed through the symbolic links inside the CMAP_PATH directory
     for slot in ["encoding_name", "cmapname_stream", "cmapname_dict", "usecmap_cid", "usecmap_simple", "registry_sub",
                  "ordering_sub"]:
@@ -437,6 +474,8 @@ class Scratch:
                 self._w(p, _DECOY_GZ)
                 self.decoy_files.append(p)
         self.decoy_base = os.path.join(self.decoydir, "decoy")
+        self.inputdir = os.path.join(r, "in")        # where a document is put for tools that take a file name
+        os.mkdir(self.inputdir)
         # planted in both working directories (self.cwd; self.work when output_dir is relative)
         self.cwd_decoys: List[str] = []
         for d in (self.cwd, self.work):
@@ -493,6 +532,9 @@ class Scratch:
             os.symlink("../../dangling" + ext, os.path.join(self.physical_out, "Lnk1" + ext))
             os.symlink("../victim" + ext, os.path.join(self.physical_out, "Lnk2" + ext))
         self._w(os.path.join(self.physical_out, "Im0.bmp.bmp"), b"SENTINEL Im0.bmp.bmp")
+        for nm in ("000002-Im0", "000002-b'Im0'", "000002-victim"):       # what dumppdf -E would name an embedded file
+            self._w(os.path.join(self.physical_out, nm), b"SENTINEL " + nm.encode())
+        self._w(os.path.join(self.work, "000002-victim"), b"SENTINEL next to DIR")
         for ext in IMAGE_EXTS:
             self._w(os.path.join(self.physical_out, "Pre_1" + ext), b"SENTINEL Pre_1" + ext.encode())
         os.mkdir(os.path.join(self.physical_out, "sub"))
@@ -566,11 +608,18 @@ class Scratch:
         return t
 
     def read_dirs(self) -> List[str]:
-        return [LIB_CMAP_DIR, self.env_path() or DEFAULT_ENV_CMAP_DIR]
+        v = self.env_path()
+        if v is None:
+            return [LIB_CMAP_DIR, DEFAULT_ENV_CMAP_DIR]
+        # the value as one directory name (the library as it stands) and, generously, each non-empty os.pathsep component;
+        # an EMPTY component is never a resource directory
+        return [LIB_CMAP_DIR, v] + [c for c in v.split(os.pathsep) if c and c != v]
 
     def env_path(self) -> Optional[str]:
         """The value of CMAP_PATH for this run (None: unset)."""
-        return {"set": self.envdir, "mirror": self.mirror_env}.get(self.env)
+        return {"set": self.envdir, "mirror": self.mirror_env, "trail": self.envdir + os.pathsep,
+                "lead": os.pathsep + self.envdir,
+                "double": self.envdir + os.pathsep * 2 + os.path.join(self.root, "nonexistent")}.get(self.env)
 
     def cleanup(self) -> None:
         shutil.rmtree(self.root, ignore_errors=True)
@@ -754,6 +803,61 @@ def build_doc(case: Dict[str, Any], h: bytes) -> Tuple[bytes, Dict[str, Any]]:
     return data, facts
 
 
+def build_embedded_doc(case: Dict[str, Any], h: bytes) -> Tuple[bytes, Dict[str, Any]]:
+    """A document with two embedded files; the Filespec that carries the slot string is object 2 (its stream object 1)."""
+    slot, v = case["slot"], case["v"]
+    doc = Doc()
+    ef1 = doc.add(Stream({"Type": N("EmbeddedFile")}, b"payload one\n"))
+    fs: Dict[str, Any] = {"Type": N("Filespec"), "EF": {"F": ef1}}
+    if slot == "embedded_f":
+        fs["F"] = h
+    else:
+        fs["F"] = b"plain.txt"
+        fs["UF"] = h if slot == "embedded_uf" else b"\xfe\xff" + h.decode("latin-1").encode("utf-16-be")
+        fs["EF"]["UF"] = ef1
+    fs1 = doc.add(fs)
+    ef2 = doc.add(Stream({"Type": N("EmbeddedFile"), "Filter": N("FlateDecode")}, zlib.compress(b"payload two\n")))
+    fs2 = doc.add({"Type": N("Filespec"), "F": b"notes.txt", "EF": {"F": ef2}})
+    assert fs1.n == 2
+    page_doc([{"content": b"BT ET", "resources": {}}], doc,
+             catalog_extra={"Names": {"EmbeddedFiles": {"Names": [b"first", fs1, b"second", fs2]}}})
+    return doc.build(xref="stream" if v % 3 == 0 else "table"), {"kinds": [], "painted": 0}
+
+
+_TOOL: Any = None
+
+
+def _dumppdf() -> Any:
+    """tools/dumppdf.py of the tree under test, imported once (before monitoring starts)."""
+    global _TOOL
+    if _TOOL is None:
+        import importlib.util
+
+        spec = importlib.util.spec_from_file_location("vf_c15_dumppdf", os.path.join(REPO, "tools", "dumppdf.py"))
+        assert spec is not None and spec.loader is not None
+        _TOOL = importlib.util.module_from_spec(spec)
+        spec.loader.exec_module(_TOOL)
+    return _TOOL
+
+
+def _embed_candidates(h: bytes) -> List[str]:
+    out = []
+    for codec in ("utf-8", "latin-1"):
+        try:
+            out.append(h.replace(b"\x00", b"").decode(codec))
+        except UnicodeDecodeError:
+            pass
+    return out + [c.replace("\\", "/") for c in out]
+
+
+def _embed_target_in_root(sc: "Scratch", h: bytes) -> bool:
+    for cand in _embed_candidates(h):
+        for pre in ("000002-", ""):
+            if not inside(sc.root, os.path.realpath(os.path.join(sc.eff_out or sc.run_cwd, pre + cand))):
+                return False
+    return True
+
+
 # --------------------------------------------------------------------------
 # running one case
 # --------------------------------------------------------------------------
@@ -781,6 +885,8 @@ def _prepare() -> None:
     for i, ot in enumerate(OTYPES):
         case = {"slot": "control", "tag": "warmup", "h": b"", "otype": ot, "outmode": "abs", "env": "set", "v": i}
         run_case(case, monitor=False)
+    run_case({"slot": "embedded_uf", "tag": "warmup", "h": b"warm.txt", "otype": "text", "outmode": "abs", "env": "set", "v": 1},
+             monitor=False)
     MON.install()
     _READY = True
 
@@ -900,7 +1006,12 @@ def run_case(case: Dict[str, Any], monitor: bool = True, rec: Any = None) -> Lis
     escaped_outside_root: List[str] = []
     try:
         h = sc.subst(case["h"])
-        data, facts = build_doc(case, h)
+        embed = slot in EMBED_SLOTS
+        data, facts = build_embedded_doc(case, h) if embed else build_doc(case, h)
+        if embed and (sc.eff_out is None or not _embed_target_in_root(sc, h)):
+            if rec is not None:
+                rec.inconclusive("unsafe_write_target_not_run")
+            return [("harness:unsafe_write_target", repr(h[:200]))]
         if (slot in WRITE_SLOTS + NAME_SLOTS[1:] + [PAIR_SLOT] and not _write_target_in_root(sc, h)) or (
                 slot == PAIR_SLOT and not _write_target_in_root(sc, case["h2"])):
             # generator guarantee broken: refuse to run rather than let a defective tree write outside the scratch root
@@ -913,7 +1024,12 @@ def run_case(case: Dict[str, Any], monitor: bool = True, rec: Any = None) -> Lis
             os.environ.pop("CMAP_PATH", None)
         os.chdir(sc.run_cwd)
         _clear_caches()
-        policy = Policy(sc.read_dirs(), sc.eff_out)
+        inpath = os.path.join(sc.inputdir, "input.pdf") if embed else None
+        if inpath is not None:
+            with open(inpath, "wb") as f:
+                f.write(data)
+            tool = _dumppdf()
+        policy = Policy(sc.read_dirs(), sc.eff_out, inpath)
         before = sc.pristine
         libsig = dir_signature(LIB_CMAP_DIR)
         outfp = io.BytesIO()
@@ -921,7 +1037,11 @@ def run_case(case: Dict[str, Any], monitor: bool = True, rec: Any = None) -> Lis
         if monitor:
             MON.start()
         try:
-            hl.extract_text_to_fp(io.BytesIO(data), outfp, output_type=case["otype"], output_dir=sc.output_dir)
+            if embed:
+                with contextlib.redirect_stdout(io.StringIO()):
+                    tool.extractembedded(inpath, "", sc.output_dir)
+            else:
+                hl.extract_text_to_fp(io.BytesIO(data), outfp, output_type=case["otype"], output_dir=sc.output_dir)
         except Exception as e:  # noqa: BLE001 - totality is not this property; the effects up to here are judged
             exc = e
         finally:
@@ -935,7 +1055,7 @@ def run_case(case: Dict[str, Any], monitor: bool = True, rec: Any = None) -> Lis
                           % (slot, case["tag"], h[:120], case["otype"], case["outmode"], case["env"], detail)))
 
         # ---- monitor 1: audit events
-        n_lib = n_env = n_create = n_mkdir = n_decoy = 0
+        n_lib = n_env = n_create = n_mkdir = n_decoy = n_input = 0
         for ev in events:
             verdict, kind = policy.classify(ev)
             if rec is not None:
@@ -946,6 +1066,8 @@ def run_case(case: Dict[str, Any], monitor: bool = True, rec: Any = None) -> Lis
                         n_lib += 1
                     else:
                         n_env += 1
+                elif kind == "read_input":
+                    n_input += 1
                 elif kind == "create_in_outdir":
                     n_create += 1
                 elif kind == "mkdir_outdir":
@@ -969,6 +1091,8 @@ def run_case(case: Dict[str, Any], monitor: bool = True, rec: Any = None) -> Lis
         dirty = bool(removed or changed)
         created_files = 0
         for p in created:
+            if p == inpath:
+                continue        # put there by the harness
             real = os.path.realpath(p)
             ok = sc.eff_out is not None and (inside(sc.eff_out, real) or inside(real, sc.eff_out))
             if after[p][0] == "d" and ok:
@@ -1018,6 +1142,21 @@ def run_case(case: Dict[str, Any], monitor: bool = True, rec: Any = None) -> Lis
                 p = os.path.join(sc.envdir, (nm or "\0") + ".pickle.gz")
                 rec.count("link_family_target_reachable", int(nm is not None and os.path.realpath(p) in sc.decoy_files
                                                               and not inside(os.path.realpath(sc.envdir), os.path.realpath(p))))
+            if case["tag"] in CWD_TAGS and case["env"] in EMPTY_COMPONENT_ENVS:
+                rec.count("empty_component_family_runs")
+                nm = _lookup_name(slot, h)
+                rec.count("empty_component_family_planted_file_reachable",
+                          int(nm is not None and os.path.realpath(os.path.join(sc.run_cwd, nm + ".pickle.gz")) in sc.cwd_decoys
+                              and os.path.isfile(os.path.join(sc.run_cwd, nm + ".pickle.gz"))))
+            if embed:
+                rec.count("embed_family_runs")
+                rec.count("embed_family_runs_with_file_in_dir", int(created_files > 0))
+                rec.count("embed_input_reads_observed", int(n_input > 0))
+                leaves = 0
+                for cand in _embed_candidates(h):
+                    if not inside(sc.eff_out, os.path.realpath(os.path.join(sc.eff_out, "000002-" + cand))):
+                        leaves = 1
+                rec.count("embed_family_names_that_leave_dir_if_joined_unreduced", leaves)
             if slot == PAIR_SLOT:
                 rec.count("pair_family_runs")
                 rec.count("pair_family_two_files_created", int(created_files >= 2))
@@ -1171,7 +1310,7 @@ def gen_random(rng: random.Random) -> Dict[str, Any]:
         if t[:1] == b"/" and not t.lstrip(b"/").startswith((b"@ROOT@/", b"@ABS@/")):
             h = b"x" + h
     return {"slot": slot, "tag": tag, "h": h, "otype": rng.choice(OTYPES), "outmode": rng.choice(OUTMODES + ["abs", "abs"]),
-            "env": rng.choice(["set"] * 7 + ["unset", "unset", "mirror"]), "v": rng.randrange(10000)}
+            "env": rng.choice(["set"] * 7 + ["unset", "unset", "mirror", "trail", "lead"]), "v": rng.randrange(10000)}
 
 
 # --------------------------------------------------------------------------
